@@ -59,3 +59,21 @@ Example C05_example :
   let t := MTranspose (MTranspose (MReshape (MReshape (MIn 0 [2; 3]) [6]) [3; 2]) [1; 0]%nat) [1; 0]%nat in
   wf_tm t = true /\ norm t = MReshape (MIn 0 [2; 3]) [3; 2].
 Proof. vm_compute. split; reflexivity. Qed.
+
+(* No rewrite ever removes, duplicates or reorders a function application: backend calls and in-place updates (every node
+   that is not a reshape / transpose / broadcast / concatenation) survive normalisation exactly once and in place, so two
+   graphs the equivalence checker accepts apply the same functions, with the same literal arguments, in the same order. *)
+From EinxV Require Import Proofs.OptCalls.
+Theorem C05_normalisation_keeps_every_call : forall t, calls (norm t) = calls t.
+Proof. exact norm_keeps_every_call. Qed.
+Print Assumptions C05_normalisation_keeps_every_call.
+
+Theorem C05_accepted_optimisations_keep_every_call : forall a b, equiv a b = true -> calls a = calls b.
+Proof. exact equiv_keeps_every_call. Qed.
+Print Assumptions C05_accepted_optimisations_keep_every_call.
+
+Example C05_calls_example :
+  (* reshape - put (in place) - reshape back: both reshapes may go, the update may not *)
+  let t := MReshape (MOther "put"%string [MReshape (MIn 0 [2; 3]) [6]; MIn 1 [2]; MIn 2 [2]] ["kw:"%string] [6]) [2; 3] in
+  calls (norm t) = [("put"%string, ["kw:"%string])] /\ equiv t (MIn 0 [2; 3]) = false.
+Proof. vm_compute. split; reflexivity. Qed.
